@@ -108,7 +108,13 @@ impl<'a> Sweep<'a> {
                 self.rep.see("query_result_kinds", format!("{}:{}", q.name(), if ans.empty { "empty" } else { "answer" }));
                 check_ranges(self.prop, self.rep, loaded, tables, q, file, pos, &ans, replay);
                 if dt > HANG_SUSPECT_S && self.prop == "C10" {
-                    self.rep.violate("slow-query-suspect", format!("{} took {dt:.1}s", q.name()), replay.clone());
+                    // The query DID return: time alone is never a verdict (the machine may be
+                    // loaded, and find-usages is linear in the occurrences of a hot symbol).
+                    // Non-termination shows as a shard watchdog timeout, which is inconclusive
+                    // and names the journaled case.
+                    self.rep.inconclusive += 1;
+                    self.rep.notes.push(format!("slow query (answered): {} took {dt:.1}s at f{}:{}", q.name(), file.0, pos));
+                    let _ = replay;
                 }
             }
             Outcome::Ok(Err(_cancelled)) => {
@@ -184,8 +190,15 @@ fn sweep_workspace(prop: &str, rep: &mut Report, files: &[(String, String)], r: 
             sw.one(&loaded, &an, &tables, &Q::HlRange(a as u32, b as u32), *fid, 0, &replay);
         }
         sw.one(&loaded, &an, &tables, &Q::HlRange(0, len), *fid, 0, &replay);
+        // `offs_cap` below 10 marks a long-construct file: usage searches (references,
+        // highlight, rename) cost seconds each when one symbol occurs 10^4 times, and it is the
+        // recursive walks (lowering, inference, completion) that such a file is there for
+        let light = offs_cap < 10;
         for pos in offsets_of(text, tt, r, offs_cap) {
             for q in &qs {
+                if light && matches!(q, Q::Refs | Q::Highlight | Q::Rename(_) | Q::PrepRename) {
+                    continue;
+                }
                 sw.one(&loaded, &an, &tables, q, *fid, pos, &replay);
             }
         }
@@ -228,6 +241,39 @@ fn run(args: Args) -> Report {
     ]);
     fixed.push(vec![("/ws/pkg/src/a.gleam".into(), "type T = T\ntype U = V\ntype V = U\nfn f(x: T, y: U) { #(x, y) }\n".into())]);
     fixed.push(vec![("/ws/pkg/src/a.gleam".into(), "type L { L(next: L) }\nfn f(l: L) { l.next.next.next }\nfn g() { let x = [x] x }\n".into())]);
+    // W0b: long constructs. A chain of thousands of operators / postfix steps / `use`
+    // statements nests for everything that walks the program recursively although the parser
+    // never recursed for it: queries run on the 2 MiB stack the server's workers have.
+    let mut long: Vec<(String, Vec<(String, String)>)> = Vec::new();
+    for c in vh::textgen::CHAINS {
+        for n in [12_000usize] {
+            long.push((format!("chain:{}:{n}", c.name), vec![("/ws/pkg/src/long.gleam".into(), format!("pub fn g(x) {{ x }}\n{}\n", vh::textgen::chain_text(c, n)))]));
+        }
+    }
+    for n in [12_000usize] {
+        let mut t = String::from("pub fn f(a) {\n");
+        for _ in 0..n {
+            t.push_str("  use x <- a\n");
+        }
+        t.push_str("  a\n}\n");
+        long.push((format!("chain:use-statements:{n}"), vec![("/ws/pkg/src/long.gleam".into(), t)]));
+    }
+    for (i, (name, mut files)) in long.into_iter().enumerate() {
+        if i % args.nshards != args.shard {
+            continue;
+        }
+        files.push(("/ws/pkg/gleam.toml".into(), "name = \"pkg\"\n".into()));
+        let fj = json!({"kind":"generated-long-construct","spec":name});
+        journal.begin("long-construct", name.as_bytes());
+        let (m, s) = sweep_workspace(&prop, &mut rep, &files, &mut r, if args.thorough() { 24 } else { 4 }, json!({"kind":"workspace","files":files_json(&files),"ops":[name.clone()]}));
+        rep.nontrivial(fnv(fj.to_string().as_bytes()));
+        rep.see("damage_ops", "long-construct");
+        rep.see("long_constructs", name);
+        if m > max_q {
+            max_q = m;
+            slowest = s;
+        }
+    }
     for (i, mut files) in fixed.into_iter().enumerate() {
         if i % args.nshards != args.shard {
             continue;
